@@ -392,8 +392,9 @@ macro_rules! mk_impl {
                             // utilisation from light to close to the reserve limit, pnl from negative to above the caps
                             let side_long = rng.chance(1, 2);
                             let usd_cap = if side_long { liq_l.saturating_mul(px.long) } else { liq_s.saturating_mul(px.short) };
-                            let usd = match rng.below(6) { 0 => usd_cap / 8, 1 => usd_cap / 3, 2 => usd_cap / 3 * 2, 3 => usd_cap / 10 * 9, _ => amount(rng, usd_cap / 4) };
-                            let usd2 = if rng.chance(1, 2) { 0 } else { amount(rng, usd_cap / 16) };
+                            // no open interest against an empty pool side (unreachable: opening needs reserve)
+                            let usd = if usd_cap == 0 { 0 } else { match rng.below(6) { 0 => usd_cap / 8, 1 => usd_cap / 3, 2 => usd_cap / 3 * 2, 3 => usd_cap / 10 * 9, _ => amount(rng, usd_cap / 4) } };
+                            let usd2 = if usd_cap == 0 || rng.chance(1, 2) { 0 } else { amount(rng, usd_cap / 16) };
                             let tok = |rng: &mut Rng, v: $U| -> $U {
                                 let t = v / px.long.max(1);
                                 match rng.below(8) { 0 | 1 => t, 2 => t.saturating_add(t / 10), 3 => t - t / 10, 4 => t.saturating_add(t / 2), 5 => t / 2, 6 => t.saturating_add(t / 100), _ => t.saturating_mul(2) }
@@ -402,6 +403,19 @@ macro_rules! mk_impl {
                                 let (o, t) = if side_long { (&mut m.open_interest.0, &mut m.open_interest_in_tokens.0) } else { (&mut m.open_interest.1, &mut m.open_interest_in_tokens.1) };
                                 o.long_amount = usd; o.short_amount = usd2;
                                 t.long_amount = tok(rng, usd); t.short_amount = tok(rng, usd2);
+                                if rng.chance(1, 3) {
+                                    // aim at a pnl factor around the deposit / withdrawal / trader caps (0.3 .. 0.6)
+                                    let f = [20u64, 29, 31, 45, 59, 61, 70][rng.below(7) as usize] as $U;
+                                    let target = usd_cap / 100 * f;
+                                    o.short_amount = 0; t.short_amount = 0;
+                                    if side_long {
+                                        o.long_amount = usd_cap / 2;
+                                        t.long_amount = (usd_cap / 2).saturating_add(target) / px.long.max(1);
+                                    } else {
+                                        o.long_amount = usd_cap / 10 * 8;
+                                        t.long_amount = (usd_cap / 10 * 8).saturating_sub(target) / px.long.max(1);
+                                    }
+                                }
                             }
                             if rng.chance(1, 2) {
                                 // positions have been open for a while: cumulative factors, borrowed totals, clocks in the past
